@@ -13,6 +13,7 @@ from .tlc import account, run_tlc, tla
 
 MODULE = 'vgen.resolve'
 BAD = 99  # NotAnInt of the spec: rendered as a string value
+NULL = 98  # an explicit null in the config (a value like any other: it overrides the default)
 
 CLASS_SPECS = [
     dict(cls='a', slug='a', params=[dict(name='x', dtype=int)], run_params=['x']),
@@ -78,6 +79,8 @@ def menus(tier):
         [src(forns=[dict(ns=['n', 'n'], vals={'x': 6}), dict(ns=['train'], vals={'xw': 3})])],
         [src({'y': 2}, uses=[dict(src=src({'x': 4}, [dict(ns=['n'], vals={'x': 3})]), ns='n')])],
         [src(forns=[dict(ns=['n'], vals={'x': 8})]), src(forns=[dict(ns=['n'], vals={'y': 3})])],
+        [src({'y': NULL, 'xw': NULL})],
+        [src({'x': 7}, [dict(ns=['n'], vals={'x': NULL})])],
     ]
     return dict(RootUsesMenu=root_uses, RootTasksMenu=root_tasks, P1Menu=p1, P2Menu=p2, CtxMenu=ctx)
 
@@ -126,7 +129,7 @@ def name_text(t):
 
 
 def _val(v):
-    return 'bad' if v == BAD else v
+    return 'bad' if v == BAD else (None if v == NULL else v)
 
 
 def _vals(d):
@@ -271,6 +274,17 @@ def observe(case, idx, seed):
                 bad.append(('closure', f'closure:{name}:{brief}',
                             f'required_tasks({name}) = {sorted(str(o) for o in chain.required_tasks(name))}, the '
                             f'transitive closure is {sorted(name_text(k) for k in t["required"])}: {brief}'))
+        # closure queries must not depend on what was asked before (include_self variants, forcing)
+        for name in list(exp)[:3]:
+            chain.dependent_tasks(name, include_self=True)
+            chain.required_tasks(name, include_self=True)
+            chain.force(name)
+        for name, t in exp.items():
+            req = {id(chain.tasks[name_text(k)]) for k in t['required']}
+            if {id(o) for o in chain.required_tasks(name)} != req:
+                bad.append(('closure', f'closure-after-queries:{name}:{brief}',
+                            f'required_tasks({name}) changed after include_self queries / force: {brief}'))
+                break
         # dependent_tasks / is_task_dependent_on are the inverse closure - compared at OBJECT level: mounts that are
         # the same computation are one task object with several names (aliases)
         req_objs = {n2: {id(chain.tasks[name_text(k)]) for k in t2['required']} for n2, t2 in exp.items()}
